@@ -263,7 +263,7 @@ def _parse_out_default_and_doc(
         return line, default
     else:
         stop_tokens = frozenset((" ", "\t", "\n", "\n", "."))
-        end = line[: _start_idx - 1]
+        end = line[: max(_start_idx - 1, 0)]
         extra_offset = int(end[-1] in frozenset((" ", "\t", "\n", "\n")) if end else 0)
 
         if rstrip_default:
@@ -275,7 +275,7 @@ def _parse_out_default_and_doc(
             )
             start_rest_offset += offset
 
-        fst = line[: _start_idx - 1 - extra_offset]
+        fst = line[: max(_start_idx - 1 - extra_offset, 0)]
         rest = line[
             start_rest_offset : (
                 (-extra_offset if extra_offset > 0 else None)
